@@ -121,7 +121,9 @@ pub fn run(args: &[String]) {
         let want_exit = c["exit"].as_str().unwrap();
         let salt = format!("{}{}", ci, if pipelined { "p" } else { "s" });
         let conc: Vec<(Value, Vec<Value>, String)> = reqs.iter().enumerate().map(|(i, r)| concretise(r, i + 1, &salt)).collect();
-        let payload: Vec<u8> = if payload_n > 0 { format!("PAYLOAD-{}-first\nPAYLOAD-{}-second\n", salt, salt).into_bytes() } else { Vec::new() };
+        // who ends an upgraded session: the client (closes its side) or the service (asked to say goodbye and hang up)
+        let service_ends = c["upEnd"] == "service" && payload_n > 0;
+        let payload: Vec<u8> = if payload_n > 0 { format!("PAYLOAD-{}-first\nPAYLOAD-{}-second\n{}", salt, salt, if service_ends { "HANGUP\n" } else { "" }).into_bytes() } else { Vec::new() };
         let mut cmd = Command::new(&bin);
         let variant;
         if mode == "resolver" {
@@ -215,11 +217,21 @@ pub fn run(args: &[String]) {
                 std::thread::sleep(Duration::from_millis(2));
             }
         }
-        drop(stdin);
-        // termination
-        let t0 = Instant::now();
+        // termination: by the client closing its side, or (the client's side still open) by the service hanging up
+        let upgrade_reached = c["bye"].as_u64().unwrap_or(0) == 1;
         let mut status = None;
-        while t0.elapsed() < Duration::from_secs(6) {
+        let mut stayed = false;
+        if service_ends && upgrade_reached && stalled.is_none() {
+            let t0 = Instant::now();
+            while t0.elapsed() < Duration::from_secs(6) {
+                if let Ok(Some(s)) = child.try_wait() { status = Some(s); break; }
+                std::thread::sleep(Duration::from_millis(2));
+            }
+            stayed = status.is_none();
+        }
+        drop(stdin);
+        let t0 = Instant::now();
+        while status.is_none() && t0.elapsed() < Duration::from_secs(6) {
             if let Ok(Some(s)) = child.try_wait() { status = Some(s); break; }
             std::thread::sleep(Duration::from_millis(2));
         }
@@ -246,6 +258,14 @@ pub fn run(args: &[String]) {
             let have = up_tok.as_ref().and_then(|t| log_of_up.lock().unwrap().up_rx.get(t).cloned()).unwrap_or_default();
             if have != payload {
                 problem = Some(format!("upgraded service received {:?}, the client sent {:?}", lossy(&have), lossy(&payload)));
+            }
+        }
+        if problem.is_none() && service_ends && upgrade_reached {
+            let bye = format!("BYE-{}\n", up_tok.clone().unwrap_or_default());
+            if !String::from_utf8_lossy(&rest).contains(&bye) {
+                problem = Some(format!("the upgraded service said {:?} before hanging up, the client received {:?}", bye, lossy(&rest)));
+            } else if stayed {
+                problem = Some("the upgraded service hung up, but the bridge went on until the client closed its side too".into());
             }
         }
         if problem.is_none() {
